@@ -105,6 +105,8 @@ def flatten_bytes(parts):
             out += [('k', x) for x in p.v]
         elif isinstance(p, Term) and p.op == 'cat':
             out += flatten_bytes(list(p.a))
+        elif type(p).__name__ == 'Rope':
+            out += flatten_bytes([v for v, _ in p.parts])       # one buffer assembled from the same pieces
         else:
             out.append(('t', p))
     return out
